@@ -7,7 +7,7 @@ use std::time::Instant;
 
 /// Root of the verification tree (evidence, replays, known findings); /verif unless the check script says otherwise (scratch copies used for mutation runs).
 pub fn verif_dir() -> String {
-    std::env::var("MCHECK_verif_dir()").unwrap_or_else(|_| "/verif".to_string())
+    std::env::var("MCHECK_VERIF_DIR").unwrap_or_else(|_| "/verif".to_string())
 }
 
 #[derive(Clone, Debug)]
